@@ -209,7 +209,22 @@ where
             #[cfg(feature = "tracing")]
             debug!(coalesce = %name, "Request executing as leader");
 
+            // The key is registered by now. If the inner `call` panics, no future exists that
+            // could free it again, and later requests would wait for a leader that never was.
+            struct CancelOnUnwind<'a, K: Hash + Eq + Clone, Res: Clone, E: Clone>(
+                &'a InFlight<K, Res, E>,
+                &'a K,
+            );
+            impl<K: Hash + Eq + Clone, Res: Clone, E: Clone> Drop for CancelOnUnwind<'_, K, Res, E> {
+                fn drop(&mut self) {
+                    if std::thread::panicking() {
+                        self.0.cancel(self.1);
+                    }
+                }
+            }
+            let unwind_guard = CancelOnUnwind(&self.in_flight, &key);
             let future = self.inner.call(request);
+            drop(unwind_guard);
             let in_flight = Arc::clone(&self.in_flight);
 
             CoalesceFuture::Leading {
